@@ -350,14 +350,26 @@ def child_main(mode: str, tier: str, seed: int, out_path: str) -> None:
         def on_return(c: Any, off: int, rv: Any) -> Any:
             flag = stack.pop() if stack else None
             if flag is True and len(events["bad"]) < 20:
-                events["bad"].append(("returned-although-strict", info.get("current_op")))
+                events["bad"].append(("returned-although-strict", info.get("current_op"),
+                                      {"flag_now": bool(ex.strict_mode)}))
 
         def on_unwind(c: Any, off: int, exc: Any) -> Any:
             if c is not code:
                 return None
             flag = stack.pop() if stack else None
+            if isinstance(exc, (common.CallTimeout, common.StepLimit)):
+                # the harness's own deadline interrupting the function is no decision of the
+                # function
+                events["interrupted"] = events.get("interrupted", 0) + 1
+                return None
             if flag is False and len(events["bad"]) < 20:
-                events["bad"].append(("raised-although-lenient", info.get("current_op")))
+                import traceback
+                tb = traceback.extract_tb(getattr(exc, "__traceback__", None))
+                events["bad"].append(("raised-although-lenient", info.get("current_op"),
+                                      {"exception": f"{type(exc).__name__}: {exc}"[:200],
+                                       "flag_now": bool(ex.strict_mode),
+                                       "frames": [f"{os.path.basename(f.filename)}:{f.lineno} {f.name}"
+                                                  for f in tb[-5:]]}))
 
         E = mon.events
         mon.register_callback(TOOL, E.PY_START, on_start)
@@ -673,9 +685,9 @@ def run(tier: str, col: common.Collector) -> None:
         info = data[m][0]
         total_entries += info.get("hook_entries", 0)
         col.ev(info.get("hook_entries", 0))
-        for what, opi in info.get("hook_bad", []):
+        for what, opi, extra in info.get("hook_bad", []):
             col.violation(("raise-if-strict-ignores-flag", what, m),
-                          dict(desc(opi) if isinstance(opi, int) else {}, mode=m))
+                          dict(desc(opi) if isinstance(opi, int) else {}, mode=m, observed=extra))
     col.notes["raise_if_strict_entries_observed"] = total_entries
     if not total_entries:
         # the hook is an auxiliary monitor attached by name; if the function was renamed the
